@@ -397,6 +397,58 @@ fn branch_family(out: &mut Out) {
     }
 }
 
+fn branch_rules_sets(out: &mut Out) {
+    use zerv::cli::flow::args::branch_rules::BranchRulesConfig;
+    use zerv::cli::flow::branch_rules::{BranchRule, BranchRules, PostMode, PreReleaseLabel as L};
+    use zerv::version::zerv::{Zerv, ZervSchema, ZervVars};
+    let mk = |p: &str, l: L, n: Option<u32>, m: PostMode| BranchRule { pattern: p.to_string(), pre_release_label: l, pre_release_num: n, post_mode: m };
+    let sets: Vec<Vec<BranchRule>> = vec![
+        vec![mk("develop", L::Beta, Some(1), PostMode::Commit), mk("release/*", L::Rc, None, PostMode::Tag), mk("*", L::Alpha, None, PostMode::Commit)],
+        vec![mk("*", L::Alpha, None, PostMode::Commit), mk("release/*", L::Rc, None, PostMode::Tag)],
+        vec![mk("release/*", L::Rc, None, PostMode::Tag), mk("release/1/*", L::Beta, None, PostMode::Commit)],
+        vec![mk("main", L::Rc, Some(9), PostMode::Tag)],
+        vec![],
+    ];
+    let branches = ["", "develop", "developer", "release/1", "release/1/2", "releases", "main", "feature/7", "é/1"];
+    for set in &sets {
+        let rules = match BranchRules::new(set.clone()) { Ok(r) => r, Err(_) => continue };
+        for b in branches {
+            out.cases += 1;
+            // "the first matching rule"
+            let want = set.iter().find(|r| rule_matches(&r.pattern, b));
+            let got = rules.find_rule(b);
+            if got.map(|r| &r.pattern) != want.map(|r| &r.pattern) {
+                out.cex("branch_rules", format!("find_rule({b:?}) over patterns {:?} = {:?}, first matching rule = {:?}",
+                    set.iter().map(|r| r.pattern.clone()).collect::<Vec<_>>(), got.map(|r| r.pattern.clone()), want.map(|r| r.pattern.clone())));
+            }
+            let res = rules.resolve_for_branch(Some(b));
+            let (wl, wm) = match want { Some(r) => (r.pre_release_label.clone(), r.post_mode.clone()), None => (L::Alpha, PostMode::Commit) };
+            if res.pre_release_label != wl || res.post_mode != wm {
+                out.cex("branch_rules", format!("resolve_for_branch({b:?}) gives label {:?} / mode {:?}, first matching rule gives {:?} / {:?}", res.pre_release_label, res.post_mode, wl, wm));
+            }
+            // "pre-release label and number taken from explicit flags or else the first matching rule"
+            for (fl, fnum, fmode) in [(None, None, None), (Some("rc".to_string()), Some(42u32), Some("tag".to_string())), (None, Some(5u32), None)] {
+                out.cases += 1;
+                let mut cfg = BranchRulesConfig { pre_release_label: fl.clone(), pre_release_num: fnum, post_mode: fmode.clone(), branch_rules: rules.clone() };
+                let vars = ZervVars { major: Some(1), bumped_branch: if b.is_empty() { None } else { Some(b.to_string()) }, ..Default::default() };
+                let z = Zerv::new(ZervSchema::semver_default().unwrap(), vars).unwrap();
+                if cfg.apply_branch_rules(&z).is_err() { continue; }
+                let want_rule = if b.is_empty() { None } else { want };
+                let wl2 = fl.clone().unwrap_or_else(|| want_rule.map(|r| r.pre_release_label.to_string().to_string()).unwrap_or("alpha".to_string()));
+                let wm2 = fmode.clone().unwrap_or_else(|| want_rule.map(|r| r.post_mode.to_string().to_string()).unwrap_or("commit".to_string()));
+                if cfg.pre_release_label.as_deref() != Some(wl2.as_str()) || cfg.post_mode.as_deref() != Some(wm2.as_str()) {
+                    out.cex("branch_rules", format!("apply_branch_rules(branch {b:?}, flags label={fl:?} mode={fmode:?}) -> label {:?} mode {:?}, expected {wl2:?} {wm2:?}", cfg.pre_release_label, cfg.post_mode));
+                }
+                if let Some(n) = fnum {
+                    if cfg.pre_release_num != Some(n) {
+                        out.cex("branch_rules", format!("explicit --pre-release-num {n} lost for branch {b:?}: {:?}", cfg.pre_release_num));
+                    }
+                }
+            }
+        }
+    }
+}
+
 // ------------------------------------------------------------------ bump levels
 
 fn bump_family(out: &mut Out) {
@@ -827,7 +879,7 @@ fn run_family(fam: &str, out: &mut Out) {
         "semver_order" => semver_family(&mut out),
         "pep440_order" => pep440_family(&mut out),
         "sanitize" | "sanitize_uint_claim" => sanitize_family(&mut out),
-        "branch_rules" => branch_family(&mut out),
+        "branch_rules" => { branch_family(&mut out); branch_rules_sets(&mut out); }
         "bump_levels" => bump_family(&mut out),
         "presets_tier" => tier_family(&mut out),
         "timestamp" => timestamp_family(&mut out),
